@@ -266,7 +266,7 @@ Definition naked_num (D : dopts) (bs : list N) : res item :=
     let neg := match bs with c :: _ => c =? 45 | [] => false end in
     let '(f, ok) := Verif.C09.Model.parseUint64_simple (if neg then tl bs else bs) in
     if ok then
-      if neg then (if uint2int_ovf f true then Err EOther else Ok (IInt (- f)))
+      if neg then (if uint2int_ovf f true then fl else Ok (IInt (- f)))      (* below MinInt64: a float64 (repair F09-3) *)
       else if signedInteger D then (if uint2int_ovf f false then Err EOther else Ok (IInt f))
       else Ok (IUint (Z.to_N f))
     else fl.
